@@ -548,3 +548,311 @@ Theorem C11_gen_file_load_start : forall junk fuel c b flts cf, file_load junk f
   end.
 Proof. exact gen_file_load_start. Qed.
 Print Assumptions C11_gen_file_load_start.
+
+(* ===== T1, whole bodies (coq/C11/IoWhole.v) =================================================================
+   Every function of the sinks and sources is translated as a whole (Gen/IoC11.v: io_<function>, calls as effects,
+   struct fields as locations); rd_<function> READS the generated outputs (which array operation a call is, which object
+   it goes to - E_WRONG otherwise -, the counters afterwards) and each theorem says: that reading IS the model's function,
+   for every state and argument (sizes below BIG = 2^62). *)
+From ScV Require Import C11.IoWhole.
+
+Theorem C11_gen_whole_sink_new_buffer : forall junk (append : bool) a enc bufp objp szof v2 v3 fo fe,
+  objp <> 0 -> 0 <= a_cnt a * a_esz a < BIG ->
+  rd_sink_new_buffer junk a bufp objp
+    (io_sink_new io_SC_IO_TYPE_BUFFER (mode_of append) enc bufp v2 v3 (a_cnt a) (a_esz a) szof objp fo fe)
+  = (Some (sink_new_buffer junk append a), io_SC_IO_TYPE_BUFFER).
+Proof. exact whole_sink_new_buffer. Qed.
+Print Assumptions C11_gen_whole_sink_new_buffer.
+
+Theorem C11_gen_whole_sink_new_filename : forall (open_ok append : bool) old enc namep filep objp szof v1 v3 c e fe,
+  objp <> 0 -> filep <> 0 ->
+  rd_sink_new_file true filep namep objp old
+    (io_sink_new io_SC_IO_TYPE_FILENAME (mode_of append) enc v1 namep v3 c e szof objp (if open_ok then filep else 0) fe)
+  = (sink_new_filename open_ok append old, if open_ok then io_SC_IO_TYPE_FILENAME else 0).
+Proof. exact whole_sink_new_filename. Qed.
+Print Assumptions C11_gen_whole_sink_new_filename.
+
+Theorem C11_gen_whole_sink_new_filefile : forall (bad : bool) mode f enc filep objp szof v1 v2 c e fo,
+  objp <> 0 -> filep <> 0 ->
+  rd_sink_new_file false filep filep objp f
+    (io_sink_new io_SC_IO_TYPE_FILEFILE mode enc v1 v2 filep c e szof objp fo (if bad then 1 else 0))
+  = (if bad then None else Some (sink_new_filefile f), if bad then 0 else io_SC_IO_TYPE_FILEFILE).
+Proof. exact whole_sink_new_filefile. Qed.
+Print Assumptions C11_gen_whole_sink_new_filefile.
+
+Theorem C11_gen_whole_sink_write_buffer : forall junk s a d flt bufp base dptr filep fwr ba,
+  k_dev s = DBuf a -> 0 < a_esz a -> 0 <= k_bb s -> 0 <= k_in s -> 0 <= k_out s ->
+  k_bb s + len d + a_esz a < BIG -> k_in s + len d < BIG -> k_out s + len d < BIG ->
+  byte_alloc_of (arr_resize junk a ((k_bb s + len d + a_esz a - 1) / a_esz a)) ba ->
+  rd_sink_write_buffer junk s a bufp base dptr d
+    (io_sink_write io_SC_IO_TYPE_BUFFER bufp (a_esz a) ba base (k_bb s) (k_in s) (k_out s) filep dptr (len d) fwr)
+  = sink_write junk s d flt.
+Proof. exact whole_sink_write_buffer. Qed.
+Print Assumptions C11_gen_whole_sink_write_buffer.
+
+Theorem C11_gen_whole_sink_write_file : forall junk s nm f d flt bufp esz ba base filep dptr,
+  k_dev s = DFile nm f -> 0 <= k_in s -> 0 <= k_out s -> k_in s + len d < BIG -> k_out s + len d < BIG ->
+  rd_sink_write_file nm f filep dptr d (fwrite_result (len d) flt)
+    (io_sink_write (iotype_of_sdev (k_dev s)) bufp esz ba base (k_bb s) (k_in s) (k_out s) filep dptr (len d) (fwrite_result (len d) flt))
+  = sink_write junk s d flt.
+Proof. exact whole_sink_write_file. Qed.
+Print Assumptions C11_gen_whole_sink_write_file.
+
+Theorem C11_gen_whole_sink_complete : forall s (ff : bool) (w1 w2 : bool) p1 p2 u1 u2 filep esz,
+  p1 <> 0 -> p2 <> 0 ->
+  esz = match k_dev s with DBuf a => a_esz a | _ => esz end ->
+  rd_sink_complete s filep
+    (io_sink_complete (iotype_of_sdev (k_dev s)) esz (k_bb s) (k_in s) (k_out s) filep (ptr_of w1 p1) (ptr_of w2 p2) u1 u2 (if ff then -1 else 0))
+  = (let '(s', rc, rep) := sink_complete s ff in (s', rc, stored2 rep w1 w2 u1 u2)).
+Proof. exact whole_sink_complete. Qed.
+Print Assumptions C11_gen_whole_sink_complete.
+
+Theorem C11_gen_whole_sink_align : forall junk s al flt sinkp blk,
+  0 < al < BIG ->
+  forall wret, wret = snd (sink_write junk s (zeros (align_fill (k_out s) al)) flt) ->
+  match rd_sink_align sinkp blk (io_sink_align sinkp (k_out s) al blk wret) with
+  | Some (n, rc) => sink_align junk s al flt = (fst (sink_write junk s (zeros n) flt), rc)
+  | None => False
+  end.
+Proof. exact whole_sink_align. Qed.
+Print Assumptions C11_gen_whole_sink_align.
+
+Theorem C11_gen_whole_sink_destroy : forall s (ff cf : bool) sinkp filep,
+  rd_sink_destroy sinkp filep (match k_dev s with DFile true _ => true | _ => false end)
+    (io_sink_destroy sinkp (iotype_of_sdev (k_dev s)) filep (snd (fst (sink_complete s ff))) (if cf then -1 else 0))
+  = fst (sink_destroy s ff cf).
+Proof. exact whole_sink_destroy. Qed.
+Print Assumptions C11_gen_whole_sink_destroy.
+
+Theorem C11_gen_whole_sink_destroy_null : forall p dret,
+  rd_destroy_null p (io_sink_destroy_null p dret) = (if p =? 0 then 0 else dret, 0).
+Proof. exact whole_sink_destroy_null. Qed.
+Print Assumptions C11_gen_whole_sink_destroy_null.
+
+Theorem C11_gen_whole_source_new_buffer : forall a enc bufp objp szof v2 v3 fo fe,
+  objp <> 0 ->
+  rd_source_new 0 a [] 0 bufp objp (io_source_new io_SC_IO_TYPE_BUFFER enc bufp v2 v3 szof objp fo fe)
+  = (Some (source_new_buffer a), io_SC_IO_TYPE_BUFFER).
+Proof. exact whole_source_new_buffer. Qed.
+Print Assumptions C11_gen_whole_source_new_buffer.
+
+Theorem C11_gen_whole_source_new_filename : forall (open_ok : bool) f enc namep filep objp szof v1 v3 fe,
+  objp <> 0 -> filep <> 0 ->
+  rd_source_new 1 (mkArr 1 0 false []) f 0 namep objp
+    (io_source_new io_SC_IO_TYPE_FILENAME enc v1 namep v3 szof objp (if open_ok then filep else 0) fe)
+  = (source_new_filename open_ok f, if open_ok then io_SC_IO_TYPE_FILENAME else 0).
+Proof. exact whole_source_new_filename. Qed.
+Print Assumptions C11_gen_whole_source_new_filename.
+
+Theorem C11_gen_whole_source_new_filefile : forall (bad : bool) f pos enc filep objp szof v1 v2 fo,
+  objp <> 0 -> filep <> 0 ->
+  rd_source_new 2 (mkArr 1 0 false []) f pos filep objp
+    (io_source_new io_SC_IO_TYPE_FILEFILE enc v1 v2 filep szof objp fo (if bad then 1 else 0))
+  = (if bad then None else Some (source_new_filefile f pos), if bad then 0 else io_SC_IO_TYPE_FILEFILE).
+Proof. exact whole_source_new_filefile. Qed.
+Print Assumptions C11_gen_whole_source_new_filefile.
+
+Theorem C11_gen_whole_source_read_buffer : forall junk s a n data (wc : bool) flt base p cp u filep mirp fr fe er wr sk,
+  p <> 0 -> cp <> 0 ->
+  r_dev s = RBuf a -> 0 <= a_cnt a * a_esz a < BIG -> 0 <= r_bb s < BIG -> 0 <= n < BIG ->
+  0 <= r_in s -> 0 <= r_out s -> r_in s + n < BIG -> r_out s + n < BIG ->
+  rd_source_read_buffer s a base (dptr_of data p) data
+    (io_source_read io_SC_IO_TYPE_BUFFER (a_cnt a) (a_esz a) base (r_bb s) (r_in s) (r_out s) (eof_of (r_eof s)) filep mirp
+                    (dptr_of data p) n (ptr_of wc cp) u fr fe er wr sk)
+  = (let '(s', rc, cnt, data') := source_read junk s n data wc flt in (s', rc, stored1 cnt u, data')).
+Proof. exact whole_source_read_buffer. Qed.
+Print Assumptions C11_gen_whole_source_read_buffer.
+
+Theorem C11_gen_whole_source_read_file : forall junk s nm f pos n data (wc : bool) flt p cp u filep mirp cnt esz base,
+  p <> 0 -> cp <> 0 -> mirp <> 0 ->
+  r_dev s = RFile nm f pos -> 0 <= pos -> 0 <= n < BIG -> 0 <= r_in s -> 0 <= r_out s -> r_in s + n < BIG -> r_out s + n < BIG ->
+  let '(k, eofi, erri) := fread_result f pos n flt in
+  rd_source_read_file junk s nm f pos filep mirp (dptr_of data p) data k (fseek_result flt)
+    (io_source_read (iotype_of_rdev (r_dev s)) cnt esz base (r_bb s) (r_in s) (r_out s) (eof_of (r_eof s)) filep (mirror_ptr (r_mir s) mirp)
+                    (dptr_of data p) n (ptr_of wc cp) u k (eof_of eofi) (eof_of erri)
+                    (mirror_write_ret junk (r_mir s) (take k (drop pos f))) (fseek_result flt))
+  = (let '(s', rc, c, data') := source_read junk s n data wc flt in (s', rc, stored1 c u, data')).
+Proof. exact whole_source_read_file. Qed.
+Print Assumptions C11_gen_whole_source_read_file.
+
+Theorem C11_gen_whole_source_complete : forall s (w1 w2 : bool) p1 p2 u1 u2 mirp esz,
+  p1 <> 0 -> p2 <> 0 -> mirp <> 0 ->
+  esz = match r_dev s with RBuf a => a_esz a | _ => esz end ->
+  (match r_dev s with RBuf _ => r_mir s = None | _ => True end) ->
+  rd_source_complete s mirp
+    (io_source_complete (iotype_of_rdev (r_dev s)) esz (r_bb s) (r_in s) (r_out s) (mirror_ptr (r_mir s) mirp) (ptr_of w1 p1) (ptr_of w2 p2) u1 u2
+                        (mirror_complete_ret (r_mir s)))
+  = (let '(s', rc, rep) := source_complete s in
+     (* after AGAIN nothing has been touched *)
+     (s', rc, stored2 rep w1 w2 u1 u2)).
+Proof. exact whole_source_complete. Qed.
+Print Assumptions C11_gen_whole_source_complete.
+
+Theorem C11_gen_whole_source_align : forall junk s al flt srcp,
+  0 < al < BIG ->
+  forall rret, rret = snd (fst (fst (source_read junk s (align_fill (r_out s) al) None false flt))) ->
+  match rd_source_align srcp (io_source_align srcp (r_out s) al rret) with
+  | Some (n, rc) => source_align junk s al flt = (fst (fst (fst (source_read junk s n None false flt))), rc)
+  | None => False
+  end.
+Proof. exact whole_source_align. Qed.
+Print Assumptions C11_gen_whole_source_align.
+
+Theorem C11_gen_whole_source_activate_mirror : forall junk s arrp sinkp mirp mbp,
+  arrp <> 0 -> sinkp <> 0 -> mirp <> 0 ->
+  rd_activate_mirror junk s arrp sinkp
+    (io_source_activate_mirror (iotype_of_rdev (r_dev s)) mbp (mirror_ptr (r_mir s) mirp) arrp sinkp)
+  = source_activate_mirror junk s.
+Proof. exact whole_source_activate_mirror. Qed.
+Print Assumptions C11_gen_whole_source_activate_mirror.
+
+Theorem C11_gen_whole_source_read_mirror : forall junk s n data (wc : bool) mbp srcp p cp,
+  mbp <> 0 -> srcp <> 0 ->
+  (forall ms, r_mir s = Some ms -> exists a, k_dev ms = DBuf a) ->
+  let inner := match r_mir s with
+               | Some ms => match k_dev ms with DBuf a => source_read junk (source_new_buffer a) n data wc NoFault | _ => (source_new_buffer (mkArr 1 0 false []), 0, None, data) end
+               | None => (source_new_buffer (mkArr 1 0 false []), 0, None, data)
+               end in
+  rd_read_mirror mbp srcp (dptr_of data p) n (ptr_of wc cp)
+    (io_source_read_mirror (match r_mir s with Some _ => mbp | None => 0 end) (dptr_of data p) n (ptr_of wc cp) srcp
+                           (snd (fst (fst inner))) (source_destroy (fst (fst (fst inner))) false))
+  = fst (fst (source_read_mirror junk s n data wc)).
+Proof. exact whole_source_read_mirror. Qed.
+Print Assumptions C11_gen_whole_source_read_mirror.
+
+Theorem C11_gen_whole_source_destroy : forall s (cf : bool) srcp filep mirp mbp,
+  mirp <> 0 ->
+  rd_source_destroy srcp filep mirp mbp (match r_dev s with RFile true _ _ => true | _ => false end) (match r_mir s with Some _ => true | None => false end)
+    (io_source_destroy srcp (iotype_of_rdev (r_dev s)) filep (mirror_ptr (r_mir s) mirp) mbp (snd (fst (source_complete s)))
+                       (match r_mir s with Some ms => fst (sink_destroy ms false false) | None => 0 end) (if cf then -1 else 0))
+  = source_destroy s cf.
+Proof. exact whole_source_destroy. Qed.
+Print Assumptions C11_gen_whole_source_destroy.
+
+Theorem C11_gen_whole_source_destroy_null : forall p dret,
+  rd_destroy_null p (io_source_destroy_null p dret) = (if p =? 0 then 0 else dret, 0).
+Proof. exact whole_source_destroy_null. Qed.
+Print Assumptions C11_gen_whole_source_destroy_null.
+
+Theorem C11_gen_whole_file_return : forall r k o sd sr,
+  io_file_return r k o sd sr =
+  (let r1 := if k =? 0 then r else b2z (z2b sd || z2b r) in
+   let r2 := if o =? 0 then r1 else b2z (z2b sr || z2b r1) in
+   (r2, if k =? 0 then 0 else 1, if k =? 0 then 0 else k, if o =? 0 then 0 else 1, if o =? 0 then 0 else o)).
+Proof. exact whole_file_return. Qed.
+Print Assumptions C11_gen_whole_file_return.
+
+Theorem C11_gen_whole_file_save : forall junk a (open_ok : bool) flt (ff cf : bool) namep arrayp sinkp sd sr,
+  sinkp <> 0 ->
+  let w := sink_write junk (mkSink (DFile true []) 0 0 0) (take (a_cnt a) (a_mem a)) flt in
+  rd_file_save namep arrayp (a_cnt a) sinkp
+    (io_file_save namep arrayp (a_cnt a) 0 (if open_ok then sinkp else 0) (snd w) (fst (sink_destroy (fst w) ff cf))
+                  (frv (-1) 0 0 sd sr) (frv (-1) sinkp 0 sd sr) (frv (-1) 0 0 sd sr) (frv 0 0 0 sd sr))
+  = fst (file_save junk a open_ok flt ff cf).
+Proof. exact whole_file_save. Qed.
+Print Assumptions C11_gen_whole_file_save.
+
+Theorem C11_gen_whole_file_load_open : forall junk fuel fo b flts cf namep srcp sd sr,
+  srcp <> 0 ->
+  let '(ret, stop, sink, source, bpos, w, sn_c, sn_a0, sn_a1, sn_a2, f_c, f_a0, f_a1, f_a2) :=
+    io_file_load_open namep (match fo with Some _ => srcp | None => 0 end) (frv (-1) 0 0 sd sr) in
+  sn_c = 1 /\ sn_a0 = io_SC_IO_TYPE_FILENAME /\ sn_a1 = io_SC_IO_ENCODE_NONE /\ sn_a2 = namep /\ sink = 0 /\
+  (stop = 2 -> f_c = 1 /\ f_a0 = -1 /\ f_a1 = 0 /\ f_a2 = 0) /\ (stop = 0 -> f_c = 0 /\ source = srcp) /\
+  file_load junk fuel fo b flts cf =
+  (if stop =? 2 then Some (ret, b)
+   else match fo with Some c => match source_new_filename true c with Some src => load_loop junk w fuel src b bpos flts cf | None => None end | None => None end).
+Proof. exact whole_file_load_open. Qed.
+Print Assumptions C11_gen_whole_file_load_open.
+
+Theorem C11_gen_whole_file_load_body : forall junk fuel src b bpos flts cf bufp srcp idx sd sr,
+  srcp <> 0 ->
+  0 <= bpos -> bpos + bwins < BIG -> 0 <= snd (pass_read junk src b bpos bwins flts) <= bwins ->
+  rd_load_body junk fuel src b bpos flts cf bufp srcp idx (fun src' => if negb (source_destroy src' cf =? 0) then -1 else 0)
+    (io_file_load_body bufp 0 srcp bpos load_bwins (snd (pass_read junk src b bpos bwins flts)) idx (fst (pass_read junk src b bpos bwins flts))
+                       (frv (-1) 0 srcp sd sr))
+  = load_loop junk bwins (S fuel) src b bpos flts cf.
+Proof. exact whole_file_load_body. Qed.
+Print Assumptions C11_gen_whole_file_load_body.
+
+Theorem C11_gen_whole_file_load_close : forall dn sd sr,
+  io_file_load_close 0 0 dn (frv (-1) 0 0 sd sr) (frv 0 0 0 sd sr) =
+  (if negb (dn =? 0) then -1 else 0, 1, if dn =? 0 then 0 else 1, if dn =? 0 then 0 else -1, 0, 0, if dn =? 0 then 1 else 0, 0, 0, 0).
+Proof. exact whole_file_load_close. Qed.
+Print Assumptions C11_gen_whole_file_load_close.
+
+(* the hypotheses are satisfiable and the readings are not the error value: concrete instances, computed *)
+Example C11_gen_whole_sink_write_example :
+  io_sink_write io_SC_IO_TYPE_BUFFER 100 2 6 1000 1 1 1 0 2000 2 0 = (0, 3, 3, 3, 1, 100, 2, 1, 1001, 2000, 2, 0, 0, 0, 0, 0).
+Proof. vm_compute. reflexivity. Qed.
+Example C11_gen_whole_sink_write_view_full_example :   (* a view of 4 bytes (byte_alloc = -5) holding 3: one more byte fits, two do not *)
+  fst (fst (fst (fst (fst (fst (fst (fst (fst (fst (fst (fst (fst (fst (fst (io_sink_write io_SC_IO_TYPE_BUFFER 100 2 (-5) 1000 3 3 3 0 2000 1 0))))))))))))))) = 0 /\
+  fst (fst (fst (fst (fst (fst (fst (fst (fst (fst (fst (fst (fst (fst (fst (io_sink_write io_SC_IO_TYPE_BUFFER 100 2 (-5) 1000 3 3 3 0 2000 2 0))))))))))))))) = -1.
+Proof. vm_compute. split; reflexivity. Qed.
+Example C11_gen_whole_source_read_exact_at_eof_example :   (* is_eof set, n = 1, no count pointer: FATAL, nothing called *)
+  io_source_read io_SC_IO_TYPE_BUFFER 2 1 1000 2 2 2 1 0 0 2000 1 0 77 0 0 0 0 0
+  = (-1, 77, 2, 2, 2, 1, 0, 0, 0, 0, 0, 0, 0, 0, 0, 0, 0, 0, 0, 0, 0, 0, 0, 0, 0, 0, 0).
+Proof. vm_compute. reflexivity. Qed.
+Example C11_gen_whole_sink_new_example :   (* write mode: sc_array_resize (buffer, 0); append mode: buffer_bytes = count * size *)
+  rd_sink_new_buffer (fun _ => 0) (mkArr 2 3 false [1;2;3;4;5;6]) 100 500 (io_sink_new io_SC_IO_TYPE_BUFFER (mode_of false) 0 100 0 0 3 2 72 500 0 0)
+    = (Some (mkSink (DBuf (mkArr 2 0 false [])) 0 0 0), 0) /\
+  rd_sink_new_buffer (fun _ => 0) (mkArr 2 3 false [1;2;3;4;5;6]) 100 500 (io_sink_new io_SC_IO_TYPE_BUFFER (mode_of true) 0 100 0 0 3 2 72 500 0 0)
+    = (Some (mkSink (DBuf (mkArr 2 3 false [1;2;3;4;5;6])) 6 0 0), 0).
+Proof. vm_compute. split; reflexivity. Qed.
+
+(* ===== histories across objects (coq/C11/IoHistories.v) ===================================================== *)
+From ScV Require Import C11.IoHistories.
+
+(* SAVE THEN LOAD, EVERY CHUNKING ON BOTH SIDES: a FILENAME sink ("wb", or "ab" over the old content) is fed ANY list of chunks and
+   destroyed; a FILENAME source opened on what is on disk then delivers, for ANY list of read sizes >= 0, exactly the first bytes of
+   old ++ chunks in order; every call succeeds; the counts are min (asked, left) *)
+Theorem C11_sink_then_source_chunked : forall junk sent (append : bool) old chunks ns, Forall (fun n => 0 <= n) ns ->
+  match sink_new_filename true append old with
+  | None => False
+  | Some k0 =>
+      let '(k1, wouts) := sink_run junk k0 (map (fun d => SWrite d None) chunks) in
+      let '(rcd, dev) := sink_destroy k1 false false in
+      match source_new_filename true (file_left dev) with
+      | None => False
+      | Some r0 =>
+          let '(r1, outs) := source_run junk sent r0 (map (fun n => RRead n true true NoFault) ns) in
+          let all := (if append then old else []) ++ concat chunks in
+          wouts = map (fun _ => (E_NONE, None)) chunks /\ rcd = E_NONE /\ file_left dev = all /\
+          concat (map delivered outs) = take (zsum ns) all /\
+          map o_rc outs = map (fun _ => E_NONE) ns /\
+          map o_cnt outs = map Some (counts_spec (len all) ns) /\
+          source_rest r1 = drop (zsum ns) all
+      end
+  end.
+Proof. exact sink_then_source_chunked. Qed.
+Print Assumptions C11_sink_then_source_chunked.
+
+(* EVERY HISTORY AFTER THE ACTIVATION OF THE MIRROR: whatever state the file source is in (any history before), after
+   sc_io_source_activate_mirror and ANY interleaving of counted reads / skips / aligns / completions / mirror reads,
+   sc_io_source_read_mirror of n bytes hands out exactly the first min (n, total) of the bytes that the reads delivered since the
+   activation, in order; it fails (1) only for an exact request (no count pointer) that is too long *)
+Theorem C11_mirror_since_activation : forall junk sent s ops n (wc : bool),
+  source_wf s -> eof_ok s -> is_file s -> 0 <= r_out s -> r_mir s = None ->
+  forallb mirror_ok_op ops = true -> Forall nonneg_op ops -> 0 <= n ->
+  let '(s', outs) := source_run junk sent s (RMirrorOn :: ops ++ [RMirrorRead n true wc]) in
+  let m := delivered_all ops (removelast (tl outs)) in
+  let k := Z.min n (len m) in
+  hd_error outs = Some (mkRes E_NONE None None None) /\
+  last outs (mkRes 0 None None None) =
+    mkRes (if wc || (n <=? len m) then 0 else 1) (if wc || (n <=? len m) then (if wc then Some k else None) else None) None
+          (Some (take k m ++ drop k (repeat sent (Z.to_nat n)))).
+Proof. exact mirror_since_activation. Qed.
+Print Assumptions C11_mirror_since_activation.
+
+(* non-vacuity: a concrete history of each kind, computed *)
+Example C11_sink_then_source_chunked_example :
+  let '(k1, _) := sink_run (fun _ => 0) (mkSink (DFile true [9]) 0 0 0) (map (fun d => SWrite d None) [[1;2];[];[3]]) in
+  let '(r1, outs) := source_run (fun _ => 0) 238 (mkSrc (RFile true (file_left (snd (sink_destroy k1 false false))) 0) 0 0 0 false None)
+                                (map (fun n => RRead n true true NoFault) [1;0;2;5]) in
+  concat (map delivered outs) = [9;1;2;3] /\ map o_cnt outs = [Some 1; Some 0; Some 2; Some 1].
+Proof. vm_compute. split; reflexivity. Qed.
+Example C11_mirror_since_activation_example :
+  let s := mkSrc (RFile false [1;2;3;4;5;6] 1) 0 0 0 false None in
+  let ops := [RRead 2 true true NoFault; RAlign 4 NoFault; RComplete; RRead 1 true true NoFault] in
+  source_wf s /\ eof_ok s /\ is_file s /\ r_mir s = None /\ forallb mirror_ok_op ops = true /\ Forall nonneg_op ops /\
+  o_data (last (snd (source_run (fun _ => 0) 238 s (RMirrorOn :: ops ++ [RMirrorRead 4 true true]))) (mkRes 0 None None None)) = Some [2;3;6;238].
+Proof. exact mirror_since_activation_example. Qed.
